@@ -4,7 +4,7 @@
 From Coq Require Import List NArith ZArith Bool Arith String.
 Import ListNotations.
 Require Import Scan Pos.
-Require ParseL PT ParserSafe ParserMarks.
+Require ParseL PT ParserSafe ParserMarks ParserGrammar.
 
 (* KIND C09_position_invariant : U *)
 (* after forward n over ANY prefix p (any length, any characters): index grew by |p|, (line, column) are the ones obtained
@@ -47,6 +47,53 @@ Theorem C09_parser_step_marks : forall lo s, ParserMarks.InvM lo s ->
 Proof. exact ParserMarks.step_invM. Qed.
 Eval vm_compute in "ASSUME:C09_parser_step_marks"%string. Print Assumptions C09_parser_step_marks.
 
-(* PARTIAL: token_marks_monotone (scanner), block_balanced, parser_sound (event grammar for ALL token lists) and span_is_value are
+(* KIND C09_parser_events_grammatical : U *)
+(* the parser alone, for EVERY token list - no hypothesis on the tokens at all - and every amount of fuel: whatever the outcome
+   (events, ParserError, crash on an undelimited list, fuel exhaustion) the events delivered so far are a viable prefix of the
+   event grammar, and when the run ends normally the whole event list is accepted by the pushdown recogniser of
+   stream ::= STREAM-START (DOCUMENT-START node DOCUMENT-END)* STREAM-END,
+   node ::= ALIAS | SCALAR | SEQUENCE-START node* SEQUENCE-END | MAPPING-START (node node)* MAPPING-END *)
+Theorem C09_parser_events_grammatical : forall ts fuel,
+  ParserGrammar.viable (map ParseL.e_kind (fst (ParseL.parse_loop fuel [] (ParseL.pinit ts)))) /\
+  (snd (ParseL.parse_loop fuel [] (ParseL.pinit ts)) = Ok tt ->
+   ParserGrammar.grammatical (map ParseL.e_kind (fst (ParseL.parse_loop fuel [] (ParseL.pinit ts))))).
+Proof. exact ParserGrammar.parser_events_grammatical. Qed.
+Eval vm_compute in "ASSUME:C09_parser_events_grammatical"%string. Print Assumptions C09_parser_events_grammatical.
+(* KIND C09_parser_events_in_grammar : U *)
+(* the same against the DECLARATIVE grammar (inductive derivations ParserGrammar.lang: nodes, node lists, key/value pairs,
+   documents): every token list on which the parser's run ends normally yields a sentence of the event grammar; in particular
+   every collection start has its end, collections nest, mappings have as many values as keys, every document has exactly one
+   root node between DOCUMENT-START and DOCUMENT-END *)
+Theorem C09_parser_events_in_grammar : forall ts, snd (ParseL.parse_all ts) = Ok tt ->
+  ParserGrammar.stream_lang (map ParseL.e_kind (fst (ParseL.parse_all ts))).
+Proof. exact ParserGrammar.parser_events_in_grammar. Qed.
+Eval vm_compute in "ASSUME:C09_parser_events_in_grammar"%string. Print Assumptions C09_parser_events_in_grammar.
+(* KIND C09_parser_step_simulates_grammar : U *)
+(* one step, ANY parser state: the event emitted is the one transition of the recogniser from the frames the state and its
+   stack of continuation states stand for (ParserGrammar.G) to the frames of the next state *)
+Theorem C09_parser_step_simulates_grammar : forall s, ParserGrammar.okfinal s ->
+  match ParseL.step s with
+  | Ok (Some e, s') => ParserGrammar.gstep (ParserGrammar.G s) (ParseL.e_kind e) = Some (ParserGrammar.G s') /\ ParserGrammar.okfinal s'
+  | Ok (None, _) => ParserGrammar.G s = []
+  | _ => True
+  end.
+Proof. exact ParserGrammar.step_sim. Qed.
+Eval vm_compute in "ASSUME:C09_parser_step_simulates_grammar"%string. Print Assumptions C09_parser_step_simulates_grammar.
+(* KIND C09_grammar_nonvacuous : F *)
+(* not vacuous: `- a\n- {b: c}` as tokens ends normally with 11 events (the premise of the theorems above holds), the
+   recogniser does reject ill-formed event lists (a mapping closed after a key without a value), and an ill-formed token list
+   ends in a ParserError with its events a viable prefix *)
+Example C09_grammar_nonvacuous :
+  let m := {| m_index := 0; m_line := 0; m_col := 0 |} in
+  let tk k := {| t_kind := k; t_start := m; t_end := m |} in
+  let sc := TScalar [97%N] true SPlain in
+  let good := [tk TStreamStart; tk TBlockSeqStart; tk TBlockEntry; tk sc; tk TBlockEntry; tk TFlowMapStart; tk TKey; tk sc; tk TValue; tk sc; tk TFlowMapEnd; tk TBlockEnd; tk TStreamEnd] in
+  (snd (ParseL.parse_all good) = Ok tt /\ List.length (fst (ParseL.parse_all good)) = 11) /\
+  ParserGrammar.grun [ParserGrammar.GInit] [ParseL.VStreamStart; ParseL.VDocStart false None []; ParseL.VMapStart None None true false;
+                                            ParseL.VScalar None None true false [] SPlain; ParseL.VMapEnd] = None /\
+  (exists c e p, snd (ParseL.parse_all [tk TStreamStart; tk TFlowSeqStart; tk sc; tk sc; tk TStreamEnd]) = ScanErr c e p).
+Proof. vm_compute. repeat split; eauto. Qed.
+
+(* PARTIAL: token_marks_monotone (scanner), block_balanced and span_is_value are
    not proved; they are decided by the scan/parse correspondence (every mark compared) and by the direct run that
    recomputes every mark from the text and recognises both grammars (see tools/props/c09.py). *)
